@@ -238,10 +238,13 @@ def judgeC06 (o : Obs) : Verdict :=
 def flagTrueAt (o : Obs) (f : Int) (upto : Nat) : Bool :=
   ((idx o).filter (fun p => p.2 < upto && p.1.tag == "setflag" && arg p.1 0 == f)).getLast?.map (fun p => arg p.1 1 == 1) |>.getD false
 
-def judgeC07 (o : Obs) : Verdict :=
+/-- `userErrors`: the programs of the family may themselves violate preconditions that usim checks
+with `assert` (e.g. `do(at=<past date>)`); an `AssertionError` outcome is then not a defect -/
+def judgeC07 (o : Obs) (userErrors : Bool := false) : Verdict :=
   let hasUntil := o.events.any (fun e => e.tag == "senter" && arg e 2 != 0)
-  let crashInternal := internalCode (o.crash.headD 0) ||
-    (o.crash.headD 0 == 3 && (decodeCodes o.crash.length (o.crash.drop 1)).any (fun c => internalCode (c.headD 0)))
+  let internal (c : Int) : Bool := internalCode c && !(userErrors && c == 9)
+  let crashInternal := internal (o.crash.headD 0) ||
+    (o.crash.headD 0 == 3 && (decodeCodes o.crash.length (o.crash.drop 1)).any (fun c => internal (c.headD 0)))
   fail (hasUntil && crashInternal) s!"a program with until-blocks ended by raising an internal signal/error: run() ended with {o.crash}" ++
   (idx o).flatMap (fun p =>
     let e := p.1
